@@ -211,4 +211,26 @@ def gmeOverlap {α : Type} [Add α] [Zero α] [One α] [Mul α] (dims : List Nat
     S (k * rank + j) * X (al * rank + j) *
       ((List.range dims.length).foldl (fun acc x => acc * psi x (al * dims.getD x 1 + (unflat dims k).getD x 0)) 1)
 
+/-- the canonical-polyadic vector of ensemble member `α` in `DensityMatrixGMEModel` with `CPrank = cp > 1` (`measure.py:94-99`):
+`Φ_α[k] = Σ_c coeff[α,c] Π_x psi_x[α,c,k_x]`; `coeff` is the flat `num×cp` array, `psi x` the flat `num×cp×dims[x]` array -/
+def cpVec {α : Type} [Add α] [Zero α] [One α] [Mul α] (dims : List Nat) (cp : Nat) (coeff : Nat → α) (psi : Nat → Nat → α)
+    (al k : Nat) : α :=
+  sumRange cp fun c => coeff (al * cp + c) *
+    ((List.range dims.length).foldl (fun acc x => acc * psi x ((al * cp + c) * dims.getD x 1 + (unflat dims k).getD x 0)) 1)
+
+/-- `contract_expr(matX, coeff, *psi_list)` for `CPrank > 1`: `out[α] = Σ_{k,j,c} S[k,j] X[α,j] coeff[α,c] Π_x psi_x[α,c,k_x]` -/
+def gmeOverlapCP {α : Type} [Add α] [Zero α] [One α] [Mul α] (dims : List Nat) (rank cp : Nat) (S X coeff : Nat → α)
+    (psi : Nat → Nat → α) (al : Nat) : α :=
+  sumRange (prodL dims) fun k => sumRange rank fun j => sumRange cp fun c =>
+    S (k * rank + j) * X (al * rank + j) * coeff (al * cp + c) *
+      ((List.range dims.length).foldl (fun acc x => acc * psi x ((al * cp + c) * dims.getD x 1 + (unflat dims k).getD x 0)) 1)
+
+/-- `contract_psi_psi(coeff, coeff, *psi_list, *psi_conj_list)` (`measure.py:61-66`), the squared norm by which `get_state` normalises the
+coefficients: `out[α] = Σ_{c,c'} coeff[α,c] coeff[α,c'] Π_x Σ_i psi_x[α,c,i] psiconj_x[α,c',i]` -/
+def cpNormSq {α : Type} [Add α] [Zero α] [One α] [Mul α] (dims : List Nat) (cp : Nat) (coeff : Nat → α) (psi psic : Nat → Nat → α)
+    (al : Nat) : α :=
+  sumRange cp fun c => sumRange cp fun c' => coeff (al * cp + c) * coeff (al * cp + c') *
+    ((List.range dims.length).foldl (fun acc x => acc *
+      sumRange (dims.getD x 1) fun i => psi x ((al * cp + c) * dims.getD x 1 + i) * psic x ((al * cp + c') * dims.getD x 1 + i)) 1)
+
 end Numqi.Ent
